@@ -142,13 +142,15 @@ type env struct {
 	baseG   int
 	ops     []string
 	dkvURI  map[string]string
+	walURI  map[string]string
+	dkvIDs  map[string][]uint64
 	ackSeq  int
 	owner   map[string]*ackRec // split state -> ack that reported it
 	gen     int
 }
 
 func newEnv(c *lib.Ctx, backend string) *env {
-	e := &env{c: c, r: c.R, backend: backend, dkvURI: map[string]string{}, owner: map[string]*ackRec{}, base0: runtime.NumGoroutine(), ping: make(chan chan struct{})}
+	e := &env{c: c, r: c.R, backend: backend, dkvURI: map[string]string{}, walURI: map[string]string{}, dkvIDs: map[string][]uint64{}, owner: map[string]*ackRec{}, base0: runtime.NumGoroutine(), ping: make(chan chan struct{})}
 	var inner locations.StorageLocation
 	if backend == "local" {
 		e.root = filepath.Join(c.Dir, "loc")
@@ -205,9 +207,30 @@ func (e *env) wit(kv ...any) map[string]any {
 func (e *env) writeDKV(op string) {
 	walURI, err := e.hl.Write("dkv/"+op+"/000001.wal", bytes.NewReader([]byte("wal of "+op)))
 	lib.Must(err)
-	doc := map[string]any{"checkpoints": []any{map[string]any{
-		"id": 1, "wals": []any{map[string]any{"uri": walURI, "after": 0}}, "levels": []any{}, "refs": nil, "last_seq_num": 0}}}
-	b, _ := json.Marshal(doc)
+	e.walURI[op] = walURI
+	e.dkvIDs[op] = nil
+	e.saveDKV(op)
+}
+
+// ensureDKV: an operator that acknowledges checkpoint id has taken a DKV checkpoint with that id, so
+// its checkpoints document lists it (savepoint assembly selects the entry by id).
+func (e *env) ensureDKV(op string, id uint64) {
+	for _, x := range e.dkvIDs[op] {
+		if x == id {
+			return
+		}
+	}
+	e.dkvIDs[op] = append(e.dkvIDs[op], id)
+	e.saveDKV(op)
+}
+
+func (e *env) saveDKV(op string) {
+	entries := []any{}
+	for _, id := range append([]uint64{0}, e.dkvIDs[op]...) {
+		entries = append(entries, map[string]any{
+			"id": id, "wals": []any{map[string]any{"uri": e.walURI[op], "after": 0}}, "levels": []any{}, "refs": nil, "last_seq_num": 0})
+	}
+	b, _ := json.Marshal(map[string]any{"checkpoints": entries})
 	uri, err := e.hl.Write("dkv/"+op+"/checkpoints", bytes.NewReader(b))
 	lib.Must(err)
 	e.dkvURI[op] = uri
@@ -309,7 +332,9 @@ func (e *env) quiesce() {
 func (e *env) buildOpAck(node string, id uint64) *ackRec {
 	e.ackSeq++
 	uri, ok := e.dkvURI[node]
-	if !ok {
+	if ok {
+		e.ensureDKV(node, id)
+	} else {
 		uri = "bogus://" + node + "/checkpoints"
 	}
 	return &ackRec{Seq: e.ackSeq, Kind: "op", Node: node, ID: id, opc: &snapshotpb.OperatorCheckpoint{
